@@ -40,11 +40,11 @@ class BoxEngine(Engine):
     max_ops = 40
     expected_probes = ['cache_warm_when_vects_changed', 'refused_raised', 'scribble_returned',
                        'scribble_passed', 'on_face_exact', 'nonnorm_cell', 'reexpress_norm',
-                       'reexpress_nonnorm', 'list_input', 'scalar_point', 'model_roundtrip']
+                       'reexpress_nonnorm', 'list_input', 'scalar_point', 'model_roundtrip', 'model_of_other_cell_read']
     rule = ('Each run drives ONE Box object (occasionally replaced by a constructor or deepcopy) through up to 40 '
             'seeded operations: the five setter families (set_vectors, set_abc, set_lengths, set_hi_los, '
             'set(**kw)), direct vects=/origin= assignment, constructors and crystal-family class methods, '
-            'data-model round trips, deepcopy, point queries (list or array input, leading shapes (), (n,), '
+            'data-model round trips (its own model, or the model of ANOTHER cell read into the live object), deepcopy, point queries (list or array input, leading shapes (), (n,), '
             '(m,n)), re-expression through every other parameter family, refused setters, and caller '
             'scribbles on arrays returned by or passed to the Box. After EVERY operation the Box is compared '
             'with an independent 3x3+origin model and (in 3 runs of 4) converted both ways on fixed points, so '
@@ -109,8 +109,13 @@ class BoxEngine(Engine):
         if k == 'reexpress':
             return {'op': 'reexpress'}
         if k == 'model':
-            return {'op': 'model', 'via': r.choice(['dm', 'json', 'ctor', 'ctor_json']),
-                    'unit': r.choice(['angstrom', 'nm', 'm', 'angstrom'])}
+            op = {'op': 'model', 'via': r.choice(['dm', 'json', 'ctor', 'ctor_json']),
+                  'unit': r.choice(['angstrom', 'nm', 'm', 'angstrom'])}
+            if op['via'] in ('dm', 'json') and r.random() < 0.5:
+                # the model of ANOTHER cell is read into this long-lived object
+                V, o = self._cell(ctx, st, general=True)
+                op['other'] = {'V': V, 'origin': o}
+            return op
         if k == 'deepcopy':
             return {'op': 'deepcopy'}
         return self._gen_fault(ctx, st)
@@ -534,7 +539,15 @@ class BoxEngine(Engine):
     # -- data model
     def _apply_model(self, ctx, st, op):
         box = st['box']
-        m = ctx.must('C01.X', box.model, length_unit=op['unit'], klass='model/write')
+        other = op.get('other') if op['via'] in ('dm', 'json') else None
+        if other is not None:
+            V, o = np.array(other['V'], dtype=float), np.array(other['origin'], dtype=float)
+            donor = ctx.must('C01.X', am.Box, vects=V, origin=o, klass='model/donor')
+            m = ctx.must('C01.X', donor.model, length_unit=op['unit'], klass='model/write')
+            st['V'], st['o'] = V, o
+            ctx.probe('model_of_other_cell_read')
+        else:
+            m = ctx.must('C01.X', box.model, length_unit=op['unit'], klass='model/write')
         src = m if op['via'] in ('dm', 'ctor') else ctx.must('C01.X', m.json, klass='model/json')
         if op['via'] in ('ctor', 'ctor_json'):
             st['box'] = ctx.must('C01.X', am.Box, model=src, klass='model/ctor')
